@@ -108,7 +108,7 @@ func (i *interpreter) checkWriteSlice(x []value, from, to int, fr *frame, what s
 }
 
 // RunPath executes the harness along one decision prefix.
-func RunPath(w *World, fn *ssa.Function, prefix []int, opts *Options, sess *smt.Session) *PathResult {
+func RunPath(w *World, fn *ssa.Function, prefix []int, opts *Options, sess *smt.Session, witness ...bool) *PathResult {
 	res := &PathResult{Prefix: prefix, Outcome: "ok", Funcs: map[string]bool{}}
 	i := &interpreter{
 		w:        w,
@@ -121,6 +121,7 @@ func RunPath(w *World, fn *ssa.Function, prefix []int, opts *Options, sess *smt.
 		wgs:      map[*value]*wgModel{},
 		pools:    map[*value]*poolModel{},
 		counters: map[string]int{},
+		fnSeen:   map[*ssa.Function]bool{},
 	}
 	sess.Reset()
 	sess.Stats = smt.Stats{}
@@ -169,6 +170,11 @@ func RunPath(w *World, fn *ssa.Function, prefix []int, opts *Options, sess *smt.
 			p.finish()
 		}()
 	}
+	if res.Outcome == "ok" && len(witness) > 0 && witness[0] && res.Asserts > 0 {
+		if sess.Check() == smt.Sat {
+			res.Witness = &Witness{Inputs: p.model(), Choices: copyChoices(res.Choices), Decisions: res.Decisions}
+		}
+	}
 	if len(res.Unknowns) > 0 && res.Outcome == "ok" {
 		res.Outcome = "unknown"
 		res.Msg = fmt.Sprint(res.Unknowns)
@@ -195,6 +201,7 @@ type Summary struct {
 	Samples     []map[string]interface{}
 	WallS       float64
 	MaxPaths    bool
+	Witnesses   []*Witness
 }
 
 // Explore runs all paths of fn with a pool of workers.
@@ -205,6 +212,7 @@ func Explore(w *World, fn *ssa.Function, opts *Options, workers, maxPaths int, t
 	cond := sync.NewCond(&mu)
 	work := [][]int{nil}
 	active := 0
+	pendingW := 0
 	stop := false
 	var wg sync.WaitGroup
 	for k := 0; k < workers; k++ {
@@ -236,10 +244,22 @@ func Explore(w *World, fn *ssa.Function, opts *Options, workers, maxPaths int, t
 				active++
 				mu.Unlock()
 
-				res := RunPath(w, fn, prefix, opts, sess)
+				mu.Lock()
+				wantW := len(sum.Witnesses)+pendingW < opts.Witnesses
+				if wantW {
+					pendingW++
+				}
+				mu.Unlock()
+				res := RunPath(w, fn, prefix, opts, sess, wantW)
 
 				mu.Lock()
 				active--
+				if wantW {
+					pendingW--
+				}
+				if res.Witness != nil && len(sum.Witnesses) < opts.Witnesses {
+					sum.Witnesses = append(sum.Witnesses, res.Witness)
+				}
 				sum.Paths++
 				sum.ByOutcome[res.Outcome]++
 				sum.Decisions += len(res.Decisions)
